@@ -340,7 +340,11 @@ def scenario_for(v, sid, svc, gometh, mname, rng=None):
     if v.get("raw"):
         # a bare request message: the fields of the stand-in pb struct by name, unset attributes simply missing
         md = {"tok": ["tkn"]} if v.get("withmd") else {}
-        scn["raw"] = {"msg": {k: x for k, x in payload.items() if k != "tok"}, "metadata": md}
+        msg = {k: x for k, x in payload.items() if k != "tok"}
+        pa = v["pa"]
+        if pa["mode"] == "required" and pa["nest"] in ("direct", "alias") and msg.get("a1") in (0, "", False):
+            del msg["a1"]       # proto3 never puts the zero value of a plain scalar field on the wire
+        scn["raw"] = {"msg": msg, "metadata": md}
         del scn["payload"]
     return scn, c, rc
 
